@@ -21,7 +21,7 @@ every transaction (filesystem: also torn writes inside every record), every appe
 before and after reaching the store, each followed by the complete remaining workload. \
 distinct = hash of the (operation, outcome class) sequence; non-trivial = at least one request id \
 reached SETTLED, at least one illegal attempt was refused, and at least one crash point had a \
-REQUESTED or CLAIMED request outstanding.";
+REQUESTED or CLAIMED request outstanding (a case that produced a refuting observation is counted as non-trivial as well).";
 
 #[derive(Clone, Copy)]
 struct Cfg {
@@ -231,6 +231,14 @@ fn do_case(rep: &mut Report, seed: u64, case: u64, cfg: &Cfg, tier: &str) {
             }
         }
         Err(Abort::Violation { sig, what, detail }) => {
+            // A refuting case is a non-trivial case by definition; it is counted
+            // (by its operation list) and sampled like any other.
+            if let Some(sh) = &shape {
+                rep.nontrivial(format!("violating:{lane}:{}", sh.2).as_bytes());
+            }
+            if rep.wants_sample() && !hist.is_null() {
+                rep.sample(json!({"case": case, "lane": lane, "violating": sig, "request_ids": shape.as_ref().map(|s| s.0), "history": hist}));
+            }
             rep.violation(&sig, &what, replay_body(seed, case, lane, tier, &shape, &hist, detail));
         }
         Err(Abort::Harness(s)) => {
